@@ -342,6 +342,32 @@ pub fn run_pp(defines: &[(String, String)], files: &[(String, String)], hist: &m
                     raws.push(e.get_raw());
                 }
             }
+            // `unlex` of the whole preprocessed stream: every token re-emitted from its own file by its span
+            if fails.is_empty() {
+                let mut want = String::new();
+                for t in &toks {
+                    let (Some((f1, o1)), Some((_, o2))) = (
+                        sm.get_file_offset_from_source_location(t.get_location()),
+                        sm.get_file_offset_from_source_location(t.get_end_location()),
+                    ) else {
+                        break;
+                    };
+                    let c = &mfiles[file_index(f1)].1;
+                    let sl = &c[o1.0 as usize..o2.0 as usize];
+                    if t.0 == Token::PhysicalEndline {
+                        want.push_str(&sl[1..]);
+                    } else if sl.is_empty() && t.0 == Token::Endline {
+                        want.push('\n');
+                    } else {
+                        want.push_str(sl);
+                    }
+                }
+                match guard(|| rssl_preprocess::unlex(&toks, &sm)) {
+                    Ok(u) if u == want => hist.add("pp.unlex_checked"),
+                    Ok(u) => fails.push(format!("unlex of the preprocessed tokens gives {:?} but their spans spell {:?}", u, want)),
+                    Err(p) => fails.push(format!("unlex of the preprocessed tokens panics: {}", p)),
+                }
+            }
             obs.push_str(&format!(
                 " toks={} from={}",
                 toks.len(),
